@@ -887,6 +887,15 @@ class Models:
                     for st3, r in self.apply(f2, vals[1], [e[3][0] if e[3] else TOP], line):
                         outs.append((st3, ("enum", "Option", "Some", (r,))))
             return outs
+        if is_opt and name == "and_then":
+            outs = []
+            for st2, e in self.split_enum(fr, dv[0], ["Some", "None"]):
+                if e[2] == "None":
+                    outs.append((st2, e))
+                else:
+                    f2 = Frame(self.I, fr.body, fr.fid, st2, fr.depth)
+                    outs.extend(self.apply(f2, vals[1], [e[3][0] if e[3] else TOP], line))
+            return outs
         if is_opt and name in ("map_or", "map_or_else", "is_some_and", "is_none_or"):
             # semantics, not an opaque term: the same atoms as the `match` / `matches!` / `if let` spelling
             outs = []
@@ -1012,6 +1021,13 @@ class Models:
 
         # ---- comparisons on opaque ordered values
         if trait in ("std::cmp::PartialOrd", "std::cmp::PartialEq", "std::cmp::Ord") and name in ("lt", "le", "gt", "ge", "eq", "ne", "cmp"):
+            if name in ("eq", "ne") and all(isinstance(x, tuple) and x[0] == "enum" and x[1] == "Option" for x in dv[:2]):
+                # two known Option shapes: different variants decide the comparison; Some(a) vs Some(b) compares the payloads
+                x, y = dv[0], dv[1]
+                if x[2] != y[2]:
+                    return [(st, ("bool", name == "ne"))]
+                if x[2] == "None":
+                    return [(st, ("bool", name == "eq"))]
             a, b = term_of(dv[0]), term_of(dv[1])
             if name == "cmp":
                 return [(st, ("sym", ("cmp", a, b)))]
@@ -1209,14 +1225,27 @@ class Models:
         itv = self.deref_val(fr, vals[0])
         src = itv[1] if isinstance(itv, tuple) and itv[0] == "iter" else term_of(itv)
         elem = ("sym", ("elem", src))
+
+        def _unmem(t_):
+            while isinstance(t_, tuple) and len(t_) == 2 and t_[0] == "mem":
+                t_ = t_[1]
+            return t_
+        advanced0 = itv[2] if isinstance(itv, tuple) and itv[0] == "iter" and len(itv) > 2 else False
+        nonempty = (not advanced0) and any(isinstance(ft, tuple) and len(ft) == 2 and ft[0] == "is_empty" and _unmem(ft[1]) == _unmem(src)
+                                           and fp is False for ft, fp in fr.st.facts)
+        first = True
         while work:
             s = work.pop()
             k = s.key(fr.fid)
             if k in seen:
                 continue
             seen.add(k)
-            # exit with Continue/Ok(()) (find_map: exhausted without a hit)
-            if name == "find_map":
+            # exit with Continue/Ok(()) (find_map: exhausted without a hit) - not before the first application when the sequence
+            # is known to be non-empty (the same refinement the explicit `for` loop gets from Iterator::next)
+            was_first, first = first, False
+            if was_first and nonempty:
+                pass
+            elif name == "find_map":
                 results.append((s.copy(), ("enum", "Option", "None", ())))
             else:
                 results.append((s.copy(), ("enum", "Result", "Ok", (UNIT,)) if name.startswith("try") else UNIT))
